@@ -1,4 +1,6 @@
 import Marwood.Vm.RunLoop
+import Marwood.Lemmas.SimRefl
+import Marwood.Lemmas.SimObs
 /-!
 # C13 — sliced execution is equivalent to uninterrupted execution
 
@@ -258,5 +260,109 @@ example : pureN demo 6 0 = .done 5 := by rfl
 example : runSliced demo [1, 1, 1, 1, 1, 1] 0 = .done 5 := by rfl
 example : runSliced demo [4, 2] 0 = .done 5 := by rfl
 example : runCount demo 1 0 = .paused 1 := by rfl
+
+/-! ## T13.3 for the concrete machine: `GcTransparent` discharged by the heap simulation
+
+`Marwood.Vm.Concrete.machine ext force` is `run_one` over the concrete heap (`Vm/ConcreteHeap.lean`) with
+the C03 collector model as `gc`. `R` (Lemmas/SimMain.lean) is "`Sim φ` for some partial injection `φ`, and
+both states are `Safe`". What is proved and what is assumed:
+
+* `gc_left` — closed (Lemmas/SimGc.lean, from T03.2 `runGc_spec` and T03.3 `runGc_wf`).
+* `step` — closed for all 16 opcodes (Lemmas/SimStep{A..F}.lean, SimBuiltin.lean: JMP JNT MOV MOVIMM PUSH
+  PUSHIMM PUSHACC HALT RET CALL TCALL ENTER, and the allocating CONS VARARG CLOSURE ENTER-of-a-closure
+  `call/cc`, plus `apply` and `eval`'s frame handling) **given** `ExtLaws ext`: the law "respects the
+  simulation" of the four non-modelled parameters of `concreteOps` — `builtinKind`, `builtinEval` (139
+  generic Rust procedures), `compileEval` (`eval`'s compiler), `vectorPush` (VPUSH through an aliased `Rc`).
+* `Safe` — explicit hypothesis on the initial state (see Lemmas/SimMain.lean): every state along either
+  run has a heap below 2^63 cells, a well-formed erased heap (`WFHeap`, `RootsOk`), the kind disciplines
+  `Plain` / `NoIofArg`, and reads the stack through `bp` only at or below `sp`.
+-/
+section Concrete
+open Marwood.Lemmas.Sim Marwood.Vm.Concrete
+
+/-- **`GcTransparent` for the real collector model** (T03.5's core): on the concrete machine, the relation
+    "equal up to a partial injection on heap addresses, along safe runs" is preserved by every instruction
+    and absorbed by a collection at any instruction boundary. -/
+theorem gcTransparent_concrete_partial (ext : ExtOps) (force : Bool) (o : ExtLaws ext) :
+    GcTransparent (machine ext force) (R (machine ext force)) where
+  step := by
+    rintro s t ⟨⟨φ, hs⟩, ss, st⟩
+    have hstep := step_sim ext (execSim_all ext o) hs ss.good st.good
+    show StepRel _ (vmStep (concreteOps ext) s) (vmStep (concreteOps ext) t)
+    unfold vmStep
+    generalize hx : step (concreteOps ext) s = x at hstep
+    generalize hy : step (concreteOps ext) t = y at hstep
+    cases hstep with
+    | ok r =>
+      rename_i a b
+      obtain ⟨s', hb⟩ := a
+      obtain ⟨t', hb'⟩ := b
+      obtain ⟨e, ψ, _, hs'⟩ := r
+      simp only at e hs'
+      subst e
+      cases hb with
+      | false =>
+        have r1 : (machine ext force).step s = .next s' := by simp [machine, vmStep, hx]
+        have r2 : (machine ext force).step t = .next t' := by simp [machine, vmStep, hy]
+        exact .next ⟨⟨ψ, hs'⟩, ss.of_reaches (.next (.refl s) r1), st.of_reaches (.next (.refl t) r2)⟩
+      | true =>
+        have r1 : (machine ext force).step s = .halt s' := by simp [machine, vmStep, hx]
+        have r2 : (machine ext force).step t = .halt t' := by simp [machine, vmStep, hy]
+        exact .halt ⟨⟨ψ, hs'⟩, ss.of_reaches (.halt (.refl s) r1), st.of_reaches (.halt (.refl t) r2)⟩
+    | err => exact .fail ⟨⟨φ, hs⟩, ss, st⟩
+    | panic => exact .fail ⟨⟨φ, hs⟩, ss, st⟩
+  gc_left := by
+    rintro s t ⟨⟨φ, hs⟩, ss, st⟩
+    have hr : Reaches (machine ext force) s (cgc force s) := .gc (.refl s)
+    obtain ⟨ψ, _, h⟩ := cgc_sim force hs ss.good.plain ss.good.wf ss.good.roots (ss _ hr).size
+    exact ⟨⟨ψ, h⟩, ss.of_reaches hr, st⟩
+
+/-- **T13.3 for the concrete machine.** For every sequence of positive budgets, the sliced run (with the
+    budget-stop collections, the collections every 8192 cycles, on the real collector model) and the
+    collection-free run of `sum budgets` instructions from `Sim`-related safe states end with the same
+    status — paused, value, or the same failure — in `Sim`-related states. -/
+theorem sliced_sim_pure_partial (ext : ExtOps) (force : Bool) (o : ExtLaws ext) (bs : List Nat)
+    (hpos : ∀ b ∈ bs, 1 ≤ b) (s t : St CHeap) (h : R (machine ext force) s t) :
+    ResRel (R (machine ext force)) (runSliced (machine ext force) bs s) (pureN (machine ext force) bs.sum t) :=
+  runSliced_pureN _ _ (gcTransparent_concrete_partial ext force o) bs hpos s t h
+
+/-- sliced vs. uninterrupted on the concrete machine: both complete, and any observation that `Sim`
+    preserves (`Lemmas/SimObs.lean`: the datum read from `acc`) is equal -/
+theorem sliced_equiv_uninterrupted_concrete_partial (ext : ExtOps) (force : Bool) (o : ExtLaws ext)
+    (O : Type) (obs : St CHeap → O) (hobs : ∀ s t, R (machine ext force) s t → obs s = obs t)
+    (s0 : St CHeap) (hrefl : R (machine ext force) s0 s0) (k : Nat) (t' : St CHeap)
+    (hk : pureN (machine ext force) k s0 = .done t')
+    (bs : List Nat) (hpos : ∀ b ∈ bs, 1 ≤ b) (hsum : k ≤ bs.sum) :
+    ∃ s1 s2, run (machine ext force) k s0 = .done s1 ∧ runSliced (machine ext force) bs s0 = .done s2 ∧
+      obs s1 = obs s2 :=
+  sliced_equiv_uninterrupted_done _ _ (gcTransparent_concrete_partial ext force o) O obs hobs s0 hrefl k t' hk
+    bs hpos hsum
+
+/-- **T13.3, closed form for the concrete machine.** From a safe state: if the uninterrupted evaluation reaches
+    HALT after `k` instructions, then for every sequence of positive budgets whose sum reaches `k` the sliced
+    evaluation reaches HALT too, and the datum read out of `acc` is the same (any read-out fuel). The
+    reflexivity premise is discharged by `sim_refl`. -/
+theorem sliced_value_eq_uninterrupted_partial (ext : ExtOps) (force : Bool) (o : ExtLaws ext)
+    (s0 : St CHeap) (hs : Safe (machine ext force) s0) (k : Nat) (t' : St CHeap)
+    (hk : pureN (machine ext force) k s0 = .done t')
+    (bs : List Nat) (hpos : ∀ b ∈ bs, 1 ≤ b) (hsum : k ≤ bs.sum) (fuel : Nat) :
+    ∃ s1 s2, run (machine ext force) k s0 = .done s1 ∧ runSliced (machine ext force) bs s0 = .done s2 ∧
+      resultObs fuel s1 = resultObs fuel s2 :=
+  sliced_equiv_uninterrupted_concrete_partial ext force o Obs (resultObs fuel)
+    (fun s t ⟨⟨_, h⟩, ss, st⟩ => resultObs_sim h ss.good.size st.good.size fuel)
+    s0 (R_refl _ hs) k t' hk bs hpos hsum
+
+/-- the law structure is satisfiable: a parameter set whose builtins, compiler and VPUSH always fail -/
+def failingExt : ExtOps :=
+  { builtinKind := fun _ _ => .generic
+    builtinEval := fun _ _ _ => .err (.builtin "unsupported")
+    compileEval := fun _ _ => .err (.builtin "unsupported")
+    vectorPush := fun _ _ _ => .err .expectedType }
+
+example : ExtLaws failingExt :=
+  ⟨fun _ _ _ _ _ => rfl, fun _ _ _ _ _ _ _ _ _ _ _ _ => .err, fun _ _ _ _ _ _ _ _ _ _ _ => .err,
+   fun _ _ _ _ _ _ _ _ _ _ _ _ => .err⟩
+
+end Concrete
 
 end Marwood.Proofs.C13
